@@ -130,6 +130,10 @@ def _param_access_chains(fn, argname):
                 if isinstance(p, ast.Subscript) and p.value is cur and isinstance(p.slice, ast.Constant):
                     chain.append(p.slice.value)
                     cur = p
+                elif (isinstance(p, ast.Attribute) and p.value is cur and p.attr == "get" and isinstance(parent.get(p), ast.Call)
+                      and parent[p].func is p and parent[p].args and isinstance(parent[p].args[0], ast.Constant)):
+                    chain.append(parent[p].args[0].value)     # d.get("k", default): the key is read, absence is a value too
+                    cur = parent[p]
                 else:
                     break
             if not chain:
@@ -138,47 +142,105 @@ def _param_access_chains(fn, argname):
     return sorted(chains)
 
 
-def param_variants(fn):
-    """[(label, {params-argument: value})]: one entry per distinct value of the parameters that fn reads, over
-    every change date of the parameter groups it takes.  [("", {})] for functions without *_params arguments,
-    i.e. the check is date-independent exactly when the function is."""
+_YAML_MEMO = {}
+
+
+def _memo_yaml_load(text, Loader=None, **kw):   # noqa: N803
+    """memoised yaml.load for the many per-date loads of one group file (same parse, deep-copied)"""
+    import copy
+    import yaml
+    k = hash(text)
+    if k not in _YAML_MEMO:
+        _YAML_MEMO[k] = yaml.load(text, Loader=Loader, **kw)   # noqa: S506 -- the loader's own call, same Loader
+    return copy.deepcopy(_YAML_MEMO[k])
+
+
+class _YamlShim:
+    def __getattr__(self, name):
+        import yaml
+        return _memo_yaml_load if name == "load" else getattr(yaml, name)
+
+
+@functools.lru_cache(maxsize=None)
+def _group_at(group, date):
+    real = PE.yaml
+    PE.yaml = _YamlShim()
+    try:
+        return PE._parse_piecewise_parameters(PE._load_parameter_group_from_yaml(date, group))
+    finally:
+        PE.yaml = real
+
+
+@functools.lru_cache(maxsize=None)
+def _group_dates(group):
     from gsv.reference import resolver as ref
     from _gettsim.config import RESOURCE_DIR
+    rs = ref.Resolver(RESOURCE_DIR / "parameters")
+    dates = set()
+    for p in rs.params_of(group):
+        spec = rs.raw(group)[p]
+        if isinstance(spec, dict):
+            dates |= set(rs.entry_dates(spec))
+    return tuple(sorted(dates))
+
+
+def _abstract(v):
+    """structural signature of a parameter value: keys, types, zero / non-zero, sizes -- not the numbers"""
+    if isinstance(v, dict):
+        return "{" + ",".join(f"{k!r}:{_abstract(x)}" for k, x in sorted(v.items(), key=lambda kv: repr(kv[0]))) + "}"
+    if isinstance(v, (list, tuple)):
+        return "[" + ",".join(_abstract(x) for x in v) + "]"
+    if isinstance(v, numpy.ndarray):
+        return f"array{v.shape}"
+    if isinstance(v, (bool, numpy.bool_)):
+        return f"bool:{bool(v)}"
+    if isinstance(v, (int, float, numpy.number)):
+        return f"{type(v).__name__}:{'0' if v == 0 else ('inf' if v in (float('inf'), float('-inf')) else ('+' if v > 0 else '-'))}"
+    return type(v).__name__
+
+
+def param_variants(fn, lo=None, hi=None, abstract=False):
+    """[(label, {params-argument: value})]: one entry per distinct value of the parameters that fn reads, over
+    every change date of the parameter groups it takes (restricted to [lo, hi], lo itself included).
+    [("", {})] for functions without *_params arguments, i.e. the check is date-independent exactly when the
+    function is."""
     pargs = [a for a in inspect.signature(fn).parameters if a.endswith("_params")]
     if not pargs:
         return [("", {})]
-    rs = ref.Resolver(RESOURCE_DIR / "parameters")
     dates = set()
     for a in pargs:
-        g = a[: -len("_params")]
-        for p in rs.params_of(g):
-            spec = rs.raw(g)[p]
-            if isinstance(spec, dict):
-                dates |= set(rs.entry_dates(spec))
+        try:
+            dates |= set(_group_dates(a[: -len("_params")]))
+        except Exception:   # noqa: BLE001 -- unknown group: the loader decides below
+            pass
+    if lo is not None:
+        dates = {d for d in dates if d >= lo} | {lo}
+    if hi is not None:
+        dates = {d for d in dates if d <= hi}
+    chains = {a: _param_access_chains(fn, a) for a in pargs}
     out, seen = [], set()
     for d in sorted(dates):
         kw, sig = {}, []
         for a in pargs:
             g = a[: -len("_params")]
             try:
-                val = PE._parse_piecewise_parameters(PE._load_parameter_group_from_yaml(d, g))
+                val = _group_at(g, d)
             except Exception as e:   # noqa: BLE001
-                val = None
                 sig.append((a, f"load error {type(e).__name__}"))
                 continue
             kw[a] = val
-            chains = _param_access_chains(fn, a)
-            if chains is None:
-                sig.append((a, repr(val)))
+            rep = _abstract if abstract else repr
+            if chains[a] is None:
+                sig.append((a, rep(val)))
             else:
-                for ch in chains:
+                for ch in chains[a]:
                     cur = val
                     try:
                         for k in ch:
                             cur = cur[k]
                     except (KeyError, TypeError, IndexError):
                         cur = "<missing>"
-                    sig.append((a, ch, repr(cur)))
+                    sig.append((a, ch, rep(cur)))
         key = repr(sig)
         if key in seen or len(kw) != len(pargs):
             continue
